@@ -68,6 +68,11 @@ func (env *Env) expr(e ast.Expr) (string, error) {
 			return x.Value, nil
 		case token.STRING:
 			return x.Value, nil
+		case token.FLOAT:
+			// only integral float literals ("1.0"): rendered as the integer, typed by the Lean context (Rat)
+			if strings.HasSuffix(x.Value, ".0") && strings.Trim(x.Value[:len(x.Value)-2], "0123456789") == "" && len(x.Value) > 2 {
+				return x.Value[:len(x.Value)-2], nil
+			}
 		}
 		return "", fmt.Errorf("literal kind %v", x.Kind)
 	case *ast.Ident:
